@@ -334,7 +334,7 @@ def model_line(w, cfg):
     dl = " ".join(hx(d) for d in sorted(dirs))
     pl = " ".join("%s %s" % (hx(n), hx(d)) for n, d in sorted(w["patches"].items()))
     return "push %d %s %d %d %d %s %d %s %d %s %d %s" % (
-        cfg["fuzz"], cfg["backup"], cfg["count"], int(cfg["dry"]) + (2 if cfg.get("threads", 1) > 1 else 0), DEFAULT_MODE, gs,
+        cfg["fuzz"], cfg["backup"], cfg["count"], int(cfg["dry"]) + (2 if cfg.get("threads", 1) > 1 else 0) + 4 * (cfg["fault"] + 1 if cfg.get("fault") is not None else 0), DEFAULT_MODE, gs,
         len(files), fl, len(dirs), dl, len(w["patches"]), pl)
 
 
@@ -379,7 +379,7 @@ def model_ops(model_out):
     """[(kind, path)] with kind in U (unlink), C (create fresh), T (create truncating), M (mkdir), R (rmdir)"""
     if " || OPS " not in model_out:
         return []
-    t = model_out.split(" || OPS ")[1].strip()
+    t = model_out.split(" || OPS ")[1].split(" || ")[0].strip()
     return [tuple(x.split(":", 1)) for x in t.split(",") if x]
 
 
